@@ -40,6 +40,12 @@ NoLineBreak(s) == ~Has(s, "CR") /\ ~Has(s, "LF")
 \* ------------------------------------------------------------------ slots
 \* side: which message is serialised; kind: the grammar position; sender: TRUE when the API
 \* can refuse the input itself (error return)
+AddVariants == { "Add", "AddBytesK", "AddBytesV", "AddBytesKV" }
+ReqSpecialNames == { "Host", "User-Agent", "Content-Type", "Connection", "Cookie", "Transfer-Encoding" }
+RespSpecialNames == { "Content-Type", "Server", "Content-Encoding", "Connection", "Set-Cookie", "Date" }
+\* special names whose value the library re-interprets (option lists, cookie syntax)
+ReinterpretedNames == { "Connection", "Cookie", "Set-Cookie", "Transfer-Encoding", "Date" }
+
 Slot(id, side, kind, sender) == [ id |-> id, side |-> side, kind |-> kind, sender |-> sender ]
 Slots == {
   Slot("ReqSetName", "req", "name", FALSE), Slot("ReqAddName", "req", "name", FALSE),
@@ -72,6 +78,9 @@ Slots == {
   Slot("RespSetStatusMessage", "resp", "reason", FALSE), Slot("RespSetProtocol", "resp", "rproto", FALSE),
   Slot("RespSetTrailer", "resp", "trailer", TRUE),
   Slot("ProxyTarget", "connect", "target", TRUE) }
+  \* the Add family applied to the names the header objects store in dedicated fields
+  \cup { Slot("Req" \o a \o ":" \o h, "req", "value", FALSE) : a \in AddVariants, h \in ReqSpecialNames }
+  \cup { Slot("Resp" \o a \o ":" \o h, "resp", "value", FALSE) : a \in AddVariants, h \in RespSpecialNames }
 
 \* Configurations of the header object (RequestHeader/ResponseHeader.DisableNormalizing, and the
 \* Server / Client options DisableHeaderNamesNormalizing that set it).  No operator below takes a
@@ -85,6 +94,7 @@ HeaderConfigs == << "normalizing", "normalizing-disabled" >>
 EncodedSlots == { "ReqURISetQueryString", "ReqURISetQueryStringBytes", "ReqURIQueryArgsSet", "ReqURISetPath",
                   "ReqURISetPathRaw", "ReqURISetHash", "ReqURIUpdate", "ReqURISetHost", "ReqSetHostURI",
                   "ReqURISetUsername", "ReqSetRequestURI" }
+                \cup { p \o a \o ":" \o h : p \in {"Req", "Resp"}, a \in AddVariants, h \in ReinterpretedNames }
 
 \* ------------------------------------------------- the line carrying the slot
 T == <<"TCHAR">>
